@@ -133,6 +133,7 @@ void sim::engine_eof(RunCtx& cx) {
         cuts.assign(s.begin(), s.end());
     }
     cx.n_ops = (unsigned)cuts.size();
+    cx.log.ev("FILE " + std::to_string(file.size()) + " " + std::to_string(fnv1a(file)));
     std::string pattern = file.substr(rf.blocks[0].off, rf.blocks[0].end - rf.blocks[0].off);
     if (cx.describe) cx.description = "file of " + std::to_string(file.size()) + " bytes, " + std::to_string(rf.blocks.size()) + " blocks, block array " +
                                       (rf.blocks_indef ? "indefinite" : "definite") + "; cut points:";
@@ -337,6 +338,9 @@ void sim::engine_decode(RunCtx& cx) {
     static const size_t W = 65535;
     Rng r(mix_str(cx.seed, "decode"));
     Item it = make_item(r);
+    // selftest canary: the foreign producer emits a byte string whose head claims one byte too many
+    { static const bool canary = getenv("VERIF_CANARY") && !strcmp(getenv("VERIF_CANARY"), "producer-wrong-length");
+      if (canary && it.op == R_BYTES && !it.indef && it.s.size() < 23 && !it.enc.empty() && ((uint8_t)it.enc[0] & 31) < 23) it.enc[0] = (char)((uint8_t)it.enc[0] + 1); }
     uint64_t sentinel = gen::uint_bits(r, 64);
     std::string sent_enc;
     ref::put_head(sent_enc, 0, sentinel);
@@ -347,6 +351,7 @@ void sim::engine_decode(RunCtx& cx) {
     cx.n_ops = (unsigned)pos.size();
     if (cx.describe) cx.description = std::string(RN[it.op]) + " on item " + hex(it.enc, 40) + " (" + std::to_string(it.enc.size()) + " bytes) followed by sentinel " + std::to_string(sentinel) + "; offsets:";
     cx.tag(RN[it.op]);
+    cx.log.ev(std::string("ITEM ") + RN[it.op] + " " + std::to_string(it.enc.size()) + " " + std::to_string(fnv1a(it.enc)) + " sentinel " + std::to_string(sentinel));
     if (it.indef) cx.tag("indefinite");
     std::string feat = std::string("/") + RN[it.op] + (it.indef ? "/indefinite" : "");
     if (it.op == R_SKIP) {
